@@ -9,6 +9,7 @@ the dictionary (the model replays it from the initial state) and the queries ask
     dict file <nh> <op…> <nq> <query…>                         => <answer…>     file-backed TrieBuf
     dict trie <ne> <entry…> <nq> <query…>                      => <answer…>     read-only Trie built from entries
     dict lay  <na> <op…> <nb> <entry…> <nh> <op…> <nq> <query…> => <answer…>     Layered[TrieBuf(mem), Trie ; user TrieBuf(mem)]
+    dict layf <na> <op…> <nb> <entry…> <nh> <op…> <nq> <query…> => <answer…>     … with a file-backed user TrieBuf
 
     op     a,<key>,<text>,<freq>,<time|->   u,<key>,<text>,<freq>,<time>   r,<key>,<text>   f   o   c
     entry  <key>,<text>,<freq>,<time|->
@@ -75,9 +76,9 @@ def lastResultWith (runf : List Op → TrieBuf.State) (ops : List Op) : String :
 def lastResult (init : TrieBuf.State) (ops : List Op) : String := lastResultWith (TrieBuf.run init) ops
 
 /-- … on a `Layered`: an operation that is not forwarded to the user layer answers `Ok` -/
-def lastResultLayered (ops : List Op) : String :=
+def lastResultLayered (init : TrieBuf.State) (ops : List Op) : String :=
   match ops.getLast? with
-  | some op => if Layered.forwarded op then lastResultWith (Layered.runUser TrieBuf.initMem) ops else "ok"
+  | some op => if Layered.forwarded op then lastResultWith (Layered.runUser init) ops else "ok"
   | none => "ok"
 
 /-- answer one query given the lookup / enumeration functions of the dictionary under test -/
@@ -109,7 +110,7 @@ def trieRecord (args : List String) : Option String := do
   let t := Trie.build es
   answers "ok" (Trie.lookupFirstN t) (fun _ => Trie.entries t) qs
 
-def layeredRecord (args : List String) : Option String := do
+def layeredRecord (init : TrieBuf.State) (args : List String) : Option String := do
   let (as, rest) ← takeCounted args
   let (bs, rest) ← takeCounted rest
   let (hs, rest) ← takeCounted rest
@@ -120,10 +121,10 @@ def layeredRecord (args : List String) : Option String := do
   let ops ← allSome (hs.map parseOp)
   let a := TrieBuf.run TrieBuf.initMem aops
   let b := Trie.build bes
-  let u := Layered.runUser TrieBuf.initMem ops
+  let u := Layered.runUser init ops
   let layers : List Dict := [TrieBuf.toDict a, { lookup := fun k st => Trie.lookupFirstN b k usizeMax st }, TrieBuf.toDict u]
   -- `Layered::add_phrase` etc. forward to the user layer (and accept an empty phrase without doing anything)
-  answers (lastResultLayered ops) (Layered.lookupFirstN layers)
+  answers (lastResultLayered init ops) (Layered.lookupFirstN layers)
     (fun _ => Layered.entries [TrieBuf.entries a, Trie.entries b, TrieBuf.entries u]) qs
 
 end DictDrv
@@ -135,7 +136,8 @@ def dictExpected (fn : String) (args : List String) : Option String :=
   | "mem" => trieBufRecord TrieBuf.initMem args
   | "file" => trieBufRecord TrieBuf.initFile args
   | "trie" => trieRecord args
-  | "lay" => layeredRecord args
+  | "lay" => layeredRecord TrieBuf.initMem args
+  | "layf" => layeredRecord TrieBuf.initFile args
   | _ => none
 
 end Chewing.Driver
